@@ -676,6 +676,28 @@ class DistinctList(object):
     def __sub__(self, o):
         return DistinctList([x for x in self.items if x not in o])
 
+    def __eq__(self, o):
+        """set equality: elements are pairwise distinct within each operand, so the sets are equal iff they have
+        the same number of elements and every element of one is in the other (membership decided by case split)"""
+        if isinstance(o, (set, frozenset)):
+            o = DistinctList(list(o))
+        if not isinstance(o, DistinctList):
+            return False
+        if len(self.items) != len(o.items):
+            return False
+        return all(x in o for x in self.items)
+
+    def __ne__(self, o):
+        return not self.__eq__(o)
+
+    def __hash__(self):
+        return id(self)
+
+    def hashv(self):
+        """order-independent hash of a frozen set of atoms: an uninterpreted commutative fold is not needed by the
+        contracts (keys are found by equality); a constant is a valid hash"""
+        return 0
+
 
 class SymSet(DistinctList):
     """mutable set of atoms (membership by decided equality)"""
@@ -812,7 +834,7 @@ def m_type(interp, x):
 
 
 def m_hash(interp, x):
-    if isinstance(x, SymStr):
+    if isinstance(x, (SymStr, DistinctList)):
         return x.hashv()
     from .interp import Obj
     if isinstance(x, Obj):
@@ -1132,6 +1154,7 @@ def install(interp):
     m[list] = m_list
     m[tuple] = m_tuple
     m[set] = m_set
+    m[frozenset] = m_set          # the model's sets are not mutated through a frozenset reference
     m[dict] = m_dict
     m[sorted] = m_sorted
     m[next] = m_next
